@@ -106,11 +106,11 @@ pub fn tokenize_inline_content(content: &str) -> Result<Vec<Node>, CompilerError
             if let Some((condition, branch_text)) = parse_inline_conditional(inline)? {
                 // Split on top-level '|' to get optional false branch.
                 let branches: Vec<&str> = split_top_level_pipe(branch_text);
-                // Use trim_end (not trim) to preserve the leading space that authors
-                // write after ':' — inklecate keeps it as part of the text token.
-                let when_true = tokenize_inline_content(branches[0].trim_end())?;
+                // The blanks that authors write after ':' and before '|' or '}' are part
+                // of the text, as in inklecate: `{x :to my lips }and sip`.
+                let when_true = tokenize_inline_content(branches[0])?;
                 let when_false = if branches.len() > 1 {
-                    Some(tokenize_inline_content(branches[1].trim_end())?)
+                    Some(tokenize_inline_content(branches[1])?)
                 } else {
                     None
                 };
